@@ -34,6 +34,12 @@ pub struct UnixVirtualMemory;
 
 impl VirtualMemory for UnixVirtualMemory {
     unsafe fn reserve(size: usize) -> Result<NonNull<u8>, u32> {
+        #[cfg(all(miri, feature = "verif"))]
+        #[allow(unreachable_code)]
+        {
+            return miri_vm::reserve(size);
+        }
+        #[allow(unreachable_code)]
         unsafe {
             let ptr = libc::mmap(
                 null_mut(),
@@ -52,6 +58,13 @@ impl VirtualMemory for UnixVirtualMemory {
     }
 
     unsafe fn commit(base: NonNull<u8>, size: usize) -> Result<(), u32> {
+        #[cfg(all(miri, feature = "verif"))]
+        #[allow(unreachable_code)]
+        {
+            let _ = (base, size);
+            return Ok(());
+        }
+        #[allow(unreachable_code)]
         unsafe {
             let status =
                 libc::mprotect(base.cast().as_ptr(), size, libc::PROT_READ | libc::PROT_WRITE);
@@ -60,6 +73,14 @@ impl VirtualMemory for UnixVirtualMemory {
     }
 
     unsafe fn decommit(base: NonNull<u8>, size: usize) {
+        #[cfg(all(miri, feature = "verif"))]
+        #[allow(unreachable_code)]
+        {
+            // MADV_DONTNEED gives zero pages back on the next touch.
+            unsafe { base.as_ptr().write_bytes(0, size) };
+            return;
+        }
+        #[allow(unreachable_code)]
         unsafe {
             // Release physical pages back to the OS. The kernel replaces them
             // with zero-fill-on-demand pages; the virtual reservation stays intact.
@@ -70,9 +91,33 @@ impl VirtualMemory for UnixVirtualMemory {
     }
 
     unsafe fn release(base: NonNull<u8>, size: usize) {
+        #[cfg(all(miri, feature = "verif"))]
+        #[allow(unreachable_code)]
+        {
+            miri_vm::release(base, size);
+            return;
+        }
+        #[allow(unreachable_code)]
         unsafe {
             libc::munmap(base.cast().as_ptr(), size);
         }
+    }
+}
+
+/// Heap-backed stand-in for `mmap(PROT_NONE)`, which Miri does not support.
+#[cfg(all(miri, feature = "verif"))]
+mod miri_vm {
+    use std::alloc::{Layout, alloc_zeroed, dealloc};
+    use std::ptr::NonNull;
+
+    pub fn reserve(size: usize) -> Result<NonNull<u8>, u32> {
+        let layout = Layout::from_size_align(size, 4096).map_err(|_| libc::ENOMEM as u32)?;
+        NonNull::new(unsafe { alloc_zeroed(layout) }).ok_or(libc::ENOMEM as u32)
+    }
+
+    pub fn release(base: NonNull<u8>, size: usize) {
+        let layout = Layout::from_size_align(size, 4096).expect("layout was valid at reserve");
+        unsafe { dealloc(base.as_ptr(), layout) };
     }
 }
 
